@@ -170,6 +170,8 @@ var strPieces = map[string]strPiece{
 	"verb-empty": {text: `\.@ @`, cps: ""}, "verb-tab": {text: "\\.Z\ttabbedZ", cps: "tabbed"}, "verb-lf": {text: "\\.END\nline1\nline2END", cps: "line1\nline2"},
 	"verb-crlf": {text: "\\.END\r\nxEND", cps: "x"}, "verb-partial": {text: `\.ab a aab`, cps: "a a"}, "verb-long-sentinel": {text: `\.SENTINEL123 xSENTINEL123`, cps: "x"},
 	"verb-unicode-sentinel": {text: `\.é xé`, cps: "x"},
+	"verb-empty-long": {text: `\.ab ab`, cps: ""}, "verb-prefix-start": {text: `\.ab aab`, cps: "a"}, "verb-prefix-start3": {text: `\.abc ababc`, cps: "ab"},
+	"verb-prefix-twice": {text: `\.aab aaaab`, cps: "aa"},
 	// not literals of the grammar / not characters
 	"cp-110000": {text: `\[110000]`}, "cp-d800": {text: `\[d800]`}, "cp-dfff": {text: `\[dfff]`}, "cp-ffffffff1": {text: `\[ffffffff1]`}, "esc-x": {text: `\x`}, "esc-0": {text: `\0`}, "cp-empty": {text: `\[]`},
 }
@@ -545,6 +547,7 @@ func checkC24(c *Check) {
 			c.Sample(map[string]interface{}{"doc": doc, "spells": want.String()})
 		}
 	})
+	c24ExtremeExponents(c)
 }
 
 // bf16Neighbours: the bfloat16 magnitudes (bit patterns without sign) just below-or-equal and
@@ -577,4 +580,106 @@ func bf16Neighbours(x *big.Rat) (lo, hi uint16) {
 		}
 	}
 	return
+}
+
+// c24ExtremeExponents: decimal float literals whose exponents lie around the 32-bit limits, where
+// CTELit.tla's positional value cannot be materialised (10^2147483647).  The literal is coefficient
+// digits D (without the point) times 10^E with E = written exponent - fraction digits; the event must
+// denote exactly that pair (compared after moving trailing zeros of the coefficient into the
+// exponent, with math/big), or the document must be refused.
+func c24ExtremeExponents(c *Check) {
+	cfg := configuration.New()
+	// custom type codes are decimal digit runs: leading zeros change nothing
+	for _, code := range []string{"0", "7", "08", "010", "0010", "99", "00", "4294967295"} {
+		want, _ := new(big.Int).SetString(code, 10)
+		for _, form := range []string{"@%s[01]", "@%s\"a\""} {
+			lit := fmt.Sprintf(form, code)
+			out := decodeCTEWithRules([]byte("c0\n"+lit), cfg)
+			c.Count("custom-type|"+lit, true)
+			c.AddTraces(1)
+			body := bodyEvents(out.Evs)
+			if out.Err != nil || out.Panicked != nil || len(body) != 1 || fmt.Sprint(body[0].CT) != want.String() {
+				c.Violation(fmt.Sprintf("the custom type literal %s (type %s) decodes to %s err=%v", lit, want, evsString(out.Evs), out.Err), map[string]interface{}{"kind": "custom-type-code", "literal": lit})
+			}
+		}
+	}
+	exps := []string{"2147483647", "2147483648", "2147483646", "2147483649", "4294967295", "4294967296", "4294967297", "99999999999", "9223372036854775807", "9223372036854775808", "18446744073709551616", "100000", "99999"}
+	coeffs := []string{"1", "1.5", "1.55", "10", "0.1", "100", "0.01", "15", "1.0", "12345678901234567890.5", "0", "0.0", "1000000000000000000000", "9.999999999999999999", "00012"}
+	norm := func(digits string, e *big.Int) (string, string) {
+		d := strings.TrimLeft(digits, "0")
+		t := strings.TrimRight(d, "0")
+		if t == "" {
+			return "0", "0"
+		}
+		ee := new(big.Int).Add(e, big.NewInt(int64(len(d)-len(t))))
+		return t, ee.String()
+	}
+	for _, cf := range coeffs {
+		for _, ex := range exps {
+			for _, esign := range []string{"", "-"} {
+				for _, sign := range []string{"", "-"} {
+					lit := sign + cf + "e" + esign + ex
+					doc := []byte("c0\n" + lit)
+					c.Count("extreme-exponent|"+lit, true)
+					out := decodeCTEWithRules(doc, cfg)
+					wit := map[string]interface{}{"kind": "extreme-exponent", "literal": lit}
+					if out.Panicked != nil || out.Hung {
+						c.Violation(fmt.Sprintf("decoding the literal %s: panic %v hang %v", lit, out.Panicked, out.Hung), wit)
+						continue
+					}
+					c.AddTraces(1)
+					if out.Err != nil {
+						continue // refused
+					}
+					body := bodyEvents(out.Evs)
+					if len(body) != 1 {
+						c.Violation(fmt.Sprintf("the literal %s decodes to %s", lit, evsString(out.Evs)), wit)
+						continue
+					}
+					// expected pair
+					digits := strings.Replace(cf, ".", "", 1)
+					frac := 0
+					if i := strings.IndexByte(cf, '.'); i >= 0 {
+						frac = len(cf) - i - 1
+					}
+					e, _ := new(big.Int).SetString(esign+ex, 10)
+					e.Sub(e, big.NewInt(int64(frac)))
+					wd, we := norm(digits, e)
+					// the event's pair
+					var gd, ge string
+					neg := false
+					k := body[0].K
+					switch body[0].M {
+					case "OnDecimalFloat": // df:<coefficient>:<exponent>
+						p := strings.Split(k, ":")
+						if len(p) == 3 {
+							neg = strings.HasPrefix(p[1], "-")
+							x, _ := new(big.Int).SetString(p[2], 10)
+							if x != nil {
+								gd, ge = norm(strings.TrimPrefix(p[1], "-"), x)
+							}
+						}
+					case "OnBigDecimalFloat": // bdf:<coefficient>:<exponent>
+						p := strings.Split(k, ":")
+						if len(p) == 3 {
+							neg = strings.HasPrefix(p[1], "-")
+							x, _ := new(big.Int).SetString(p[2], 10)
+							if x != nil {
+								gd, ge = norm(strings.TrimPrefix(p[1], "-"), x)
+							}
+						}
+					}
+					if wd == "0" {
+						we, ge = "0", "0"
+						if k == "df:-0" || strings.HasPrefix(k, "bdf:-0:") || strings.HasPrefix(k, "bdf:0:") {
+							gd = "0"
+						}
+					}
+					if gd != wd || ge != we || (neg != (sign == "-") && wd != "0") {
+						c.Violation(fmt.Sprintf("the literal %s (coefficient %s x 10^%s) decodes to %s %s, which is not that value", lit, wd, we, body[0].M, k), wit)
+					}
+				}
+			}
+		}
+	}
 }
